@@ -932,13 +932,17 @@ class AP:
             if op not in (".", "->"):
                 raise Refuse(f"{self.fn}: operator `{op}` is outside the translated subset")
             f = self.eat()
+            if IDENT.match(f) and op == "." and self.peek() == "(" and self.peek(1) == ")":
+                self.eat("("); self.eat(")")
+                a = ("mcall", a, f)
+                continue
             if not IDENT.match(f) or self.peek() == "(":
                 raise Refuse(f"{self.fn}: member `{f}` / member call is outside the translated subset")
             a = ("dot" if op == "." else "arrow", a, f)
         return a
 
 
-LEAN_TY = {"ptr": "Option P", "nat": "Nat"}
+LEAN_TY = {"ptr": "Option P", "nat": "Nat", "arr": "Option Arr"}
 EFFECTS = ("assign", "preinc", "predec", "call", "alloc", "construct", "destroy")
 
 
@@ -967,16 +971,50 @@ class TrA:
         return "some (M, A)" if extra is None else f"some (M, A, {extra})"
 
     # ---- conditions: side-effect free, cannot fault
+    accessors = {}
+
+    def inline_accessors(self, e, env):
+        """`size()` / `x.size()` / `x.capacity()` … -> the accessor's return expression, re-based on the object"""
+        if not isinstance(e, tuple):
+            return e
+        if e[0] == "mcall" or (e[0] == "call" and not e[2] and e[1] in self.accessors):
+            name = e[2] if e[0] == "mcall" else e[1]
+            if name not in self.accessors:
+                raise Refuse(f"{self.fn}: call of `{name}()` is outside the translated subset")
+            body = self.accessors[name]
+            if e[0] == "call":
+                return body
+            obj = e[1]
+            if obj[0] != "id" or env.get(obj[1]) != "arr":
+                raise Refuse(f"{self.fn}: `.{name}()` on something that is not an Array parameter")
+
+            def rebase(x):
+                if not isinstance(x, tuple):
+                    return x
+                if x[0] == "id" and x[1] in ("_begin", "_end", "_capacity"):
+                    return ("dot", obj, x[1])
+                return tuple(rebase(y) if isinstance(y, tuple) else y for y in x)
+            return rebase(body)
+        return tuple(self.inline_accessors(y, env) if isinstance(y, tuple) else
+                     ([self.inline_accessors(z, env) for z in y] if isinstance(y, list) else y) for y in e)
+
     def atom(self, e, env):
         k = e[0]
         if k == "num":
             return str(e[1]), "nat"
         if k == "id":
             if e[1] in env:
+                if env[e[1]] == "arr":
+                    raise Refuse(f"{self.fn}: Array parameter `{e[1]}` used as a value")
                 return "v_" + e[1], env[e[1]]
             if e[1] == "_capacity":
                 return "A.cap", "nat"
             raise Refuse(f"{self.fn}: unknown identifier `{e[1]}`")
+        if k == "dot" and e[2] == "_capacity" and e[1][0] == "id" and env.get(e[1][1]) == "arr":
+            return f"(AM.oth v_{e[1][1]} A).cap", "nat"
+        if k == "dot" and e[2] == "item" and e[1][0] == "dot" and e[1][2] in ("_begin", "_end") and e[1][1][0] == "id" \
+                and env.get(e[1][1][1]) == "arr":
+            return f"(AM.oth v_{e[1][1][1]} A).{'begin' if e[1][2] == '_begin' else 'end_'}", "ptr"
         if k == "dot" and e[2] == "item" and e[1][0] == "id":
             b = e[1][1]
             if b == "_begin":
@@ -1154,6 +1192,14 @@ class TrA:
         s, rest = stmts[0], stmts[1:]
         cont = lambda env2, ind2: self.run(rest, env2, ind2, tail)
         k = s[0]
+        if k in ("expr", "return", "delete") and s[1] is not None:
+            s = (k, self.inline_accessors(s[1], env))
+        elif k == "if":
+            s = (k, self.inline_accessors(s[1], env), s[2], s[3])
+        elif k == "for":
+            s = (k, s[1], self.inline_accessors(s[2], env) if s[2] else None, [self.inline_accessors(x, env) for x in s[3]], s[4])
+        elif k == "decl":
+            s = (k, [(ty, n, self.inline_accessors(i, env) if i is not None else None) for ty, n, i in s[1]])
         if k == "block":
             return self.run(list(s[1]), dict(env), ind, lambda env2, ind2: cont(self.restrict(env2, env), ind2))
         if k == "decl":
@@ -1313,6 +1359,7 @@ AFUNCS = [
     ("Array::append(const T&)", "appendValue", r"T\s*&\s*append\s*\(\s*const\s+T\s*&\s*value\s*\)", [("value", "ref")], "ref"),
     ("Array::append(const T*, usize)", "appendPtr", r"void\s+append\s*\(\s*const\s+T\s*\*\s*values\s*,\s*usize\s+size\s*\)",
      [("values", "ptr"), ("size", "nat")], None),
+    ("Array::append(const Array&)", "appendArray", r"void\s+append\s*\(\s*const\s+Array\s*&\s*values\s*\)", [("values", "arr")], None),
     ("Array::remove(usize)", "removeIndex", r"void\s+remove\s*\(\s*usize\s+index\s*\)", [("index", "nat")], None),
     ("Array::remove(const Iterator&)", "removeIter", r"Iterator\s+remove\s*\(\s*const\s+Iterator\s*&\s*it\s*\)", [("it", "iter")], "ptr"),
 ]
@@ -1341,7 +1388,15 @@ def generate_array(repo, out_path):
             raise Refuse(f"{fn}: trailing tokens")
         loops = []
         tr = TrA(fn, lean, {n: k for n, k in params}, ret, ACALLEES, loops)
-        env = {n: ("ptr" if k in ("ptr", "ref", "iter") else "nat") for n, k in params}
+        env = {n: ("ptr" if k in ("ptr", "ref", "iter") else "arr" if k == "arr" else "nat") for n, k in params}
+        TrA.accessors = {}
+        for acc in ("size", "capacity"):
+            mm = re.search(r"usize\s+" + acc + r"\s*\(\s*\)\s*const\s*\{\s*return\s+([^;{}]*);\s*\}", src)
+            if mm:
+                ap = AP(atokenize(mm.group(1)), "Array::" + acc)
+                TrA.accessors[acc] = ap.expr()
+                if ap.peek() is not None:
+                    raise Refuse(f"Array::{acc}(): trailing tokens")
 
         def tail(env2, ind2, tr=tr, fn=fn):
             if tr.ret is not None:
